@@ -99,6 +99,10 @@ Keep(e, i, ok) ==
   IF i > Len(e) THEN <<>>
   ELSE (IF ok \/ e[i] = 1 THEN <<[n |-> i, s |-> -1]>> ELSE <<>>) \o Keep(e, i + 1, ok)
 Response(e, ok) == Keep(e, 1, ok) \o <<[n |-> 0, s |-> IF ok THEN 1 ELSE 0]>>
+\* a module hook that runs before the command (BeforeCommandExecute: fee, nonce ...) writes hw = <<cell, value>> and logs
+\* one revertible event (n = -1).  The statement protects it: a failing command is undone back to the state "before the
+\* command ran" - that is after the hooks - and only "the command's revertible events" are discarded.
+HookEv(hw) == IF hw = <<>> THEN <<>> ELSE <<[n |-> -1, s |-> -1]>>
 
 (* ---------------------------------- steps -------------------------------- *)
 appH == Len(chain) - 1
@@ -109,7 +113,7 @@ P == Plan[Step]
 Allowed(k) == Planned /\ k \in P.k
 
 Rec(op, w, e, ok, pre, st, off, ev, h, root, ahead) ==
-  [op |-> op, w |-> w, e |-> e, ok |-> ok, pre |-> pre, st |-> st, off |-> off, ev |-> ev, h |-> h, root |-> root, ahead |-> ahead]
+  [op |-> op, w |-> w, e |-> e, ok |-> ok, pre |-> pre, st |-> st, off |-> off, ev |-> ev, h |-> h, root |-> root, ahead |-> ahead, hw |-> <<>>]
 NoTerm == [t |-> "-"]
 
 Init ==
@@ -123,16 +127,17 @@ CanRestart == TRUE
 CanRecover == appH > engH      \* plan kind "recover": a restart only where the application is ahead
 CanPreset == engH = appH /\ ~open /\ appH = 0
 
-TxRec(w, e, ok) ==
+TxRecH(w, e, ok, hw) ==
   LET pre == IF open THEN wst ELSE Tip.st
       base == IF open THEN evlog ELSE <<>>
-      snapshot == pre
-      after == ApplyAll(pre, w)
+      snapshot == IF hw = <<>> THEN pre ELSE Apply(pre, hw)      \* taken after the hooks, before the command
+      after == ApplyAll(snapshot, w)
       post == IF ok THEN after ELSE snapshot
-  IN Rec("tx", w, e, IF ok THEN 1 ELSE 0, pre, post, Len(base), Response(e, ok), appH + 1, NoTerm, 0)
+  IN [Rec("tx", w, e, IF ok THEN 1 ELSE 0, pre, post, Len(base), HookEv(hw) \o Response(e, ok), appH + 1, NoTerm, 0) EXCEPT !.hw = hw]
+TxRec(w, e, ok) == TxRecH(w, e, ok, <<>>)
 
-DoTx(w, e, ok) ==
-  LET r == TxRec(w, e, ok)
+DoTx(w, e, ok, hw) ==
+  LET r == TxRecH(w, e, ok, hw)
       base == IF open THEN evlog ELSE <<>>
   IN /\ open' = TRUE
      /\ wst' = r.st
@@ -143,17 +148,20 @@ DoTx(w, e, ok) ==
 
 Tx ==
   /\ Allowed("tx") /\ CanTx
-  /\ LET W == P.cells \X (0..NV) IN
+  /\ LET W == P.cells \X (0..NV)
+         \* the hook's write is a function of the step (one more binary choice per transaction, not one more dimension)
+         HC == CHOOSE c \in P.cells : \A d \in P.cells : c <= d
+         HWs == {<<>>, <<HC, (Step % NV) + 1>>} IN
      IF Sim
-     THEN \E ok \in BOOLEAN :
+     THEN \E ok \in BOOLEAN : \E hw \in {RandomElement(HWs)} :
           \E n \in {RandomElement(0..P.mw)} :
           \E a1 \in {RandomElement(W)} : \E a2 \in {RandomElement(W)} : \E a3 \in {RandomElement(W)} : \E a4 \in {RandomElement(W)} :
           \E m \in {RandomElement(0..Min(P.me, P.mo - n))} :
           \E b1 \in {RandomElement({0, 1})} : \E b2 \in {RandomElement({0, 1})} : \E b3 \in {RandomElement({0, 1})} :
-            DoTx(SubSeq(<<a1, a2, a3, a4>>, 1, Min(n, 4)), SubSeq(<<b1, b2, b3>>, 1, Min(m, 3)), ok)
+            DoTx(SubSeq(<<a1, a2, a3, a4>>, 1, Min(n, 4)), SubSeq(<<b1, b2, b3>>, 1, Min(m, 3)), ok, hw)
      ELSE \E n \in 0..P.mw : \E w \in [1..n -> W] :
           \E m \in 0..Min(P.me, P.mo - n) : \E e \in [1..m -> {0, 1}] :
-          \E ok \in BOOLEAN : DoTx(w, e, ok)
+          \E ok \in BOOLEAN : \E hw \in HWs : DoTx(w, e, ok, hw)
 
 CommitWith(crash) ==
   LET s == IF open THEN wst ELSE Tip.st
@@ -213,16 +221,18 @@ Last == trace[Len(trace)]
 \* a failed command leaves the state exactly as it was; a successful one applies all its writes
 Atomic ==
   (Len(trace) > 0 /\ Last.op = "tx") =>
-     /\ Last.ok = 0 => Last.st = Last.pre
-     /\ Last.ok = 1 => Last.st = ApplyAll(Last.pre, Last.w)
+     /\ LET before == IF Last.hw = <<>> THEN Last.pre ELSE Apply(Last.pre, Last.hw) IN     \* "before the command ran"
+        /\ Last.ok = 0 => Last.st = before
+        /\ Last.ok = 1 => Last.st = ApplyAll(before, Last.w)
      /\ open /\ wst = Last.st
 \* exactly one standard event, last, carrying the outcome; command events: all on success, the unrevertible ones on failure
 EventsBookkeeping ==
   /\ (Len(trace) > 0 /\ Last.op = "tx") =>
-       LET ev == Last.ev  k == Len(ev) IN
-       /\ k >= 1 /\ ev[k].n = 0 /\ ev[k].s = Last.ok
-       /\ \A i \in 1..(k - 1) : ev[i].n > 0 /\ (i > 1 => ev[i - 1].n < ev[i].n)
-       /\ {ev[i].n : i \in 1..(k - 1)} = {i \in 1..Len(Last.e) : Last.ok = 1 \/ Last.e[i] = 1}
+       LET ev == Last.ev  k == Len(ev)  h == IF Last.hw = <<>> THEN 0 ELSE 1 IN
+       /\ k >= 1 + h /\ ev[k].n = 0 /\ ev[k].s = Last.ok
+       /\ (h = 1 => ev[1].n = -1)                          \* the hook's event survives success and failure alike
+       /\ \A i \in (1 + h)..(k - 1) : ev[i].n > 0 /\ (i > 1 + h => ev[i - 1].n < ev[i].n)
+       /\ {ev[i].n : i \in (1 + h)..(k - 1)} = {i \in 1..Len(Last.e) : Last.ok = 1 \/ Last.e[i] = 1}
   /\ \A i \in 1..Len(evlog) : evlog[i].idx = i - 1
   /\ \A i \in 1..Len(evlog) : \A j \in 1..Len(evlog) : (i < j) => evlog[i].tx <= evlog[j].tx
 \* the root is a function of the state, with deleted cells absent from the tree
